@@ -73,9 +73,38 @@ def check_case(case, ctx):
     ctx.record(case, stopped > 0, classes, quiet[-1] if quiet else None)
 
 
+@st.composite
+def _detour(draw):
+    """One-way detour into a dead end: A -> N -> D with the second observation next to D and N *beyond* it, node-and-edge
+    states, non-emitting states with a wider noise than emitting ones and a minimum normalised probability, so that N is
+    admissible as a non-emitting state while its own emitting candidate is cut off (a stopped entry that only exists at DEBUG)."""
+    nx = draw(st.sampled_from([3.0, 4.0, 5.0]))
+    ny = draw(st.sampled_from([2.0, 3.0, 4.0]))
+    dy = draw(st.sampled_from([-0.3, 0.2, 0.5]))
+    labs = draw(st.sampled_from([["A", "N", "D"], [1, 2, 3], [3, 1, 2]]))
+    a, n, d = labs
+    graph = [[a, [0.0, 0.0], [n]], [n, [nx, ny], [d]], [d, [nx, dy], []]]
+    if draw(st.booleans()):
+        graph.append([draw(st.sampled_from(["Z", 9])) if isinstance(a, str) else 9, [nx + 2.0, dy], []])
+        graph[2][2].append(graph[3][0])
+    trace = [[0.0, 0.0], [nx, 0.0]]
+    if draw(st.booleans()):
+        trace.append([nx + 1.0, 0.0])
+    cfg = {"family": draw(st.sampled_from(["simple_n", "simple_n", "distance"])),
+           "obs_noise": draw(st.sampled_from([0.5, 1.0])), "obs_noise_ne": draw(st.sampled_from([2.0, 5.0, 10.0])),
+           "max_dist": 10.0, "max_dist_init": 10.0, "min_prob_norm": draw(st.sampled_from([0.3, 0.5, 0.7])),
+           "non_emitting_states": True, "max_lattice_width": None, "avoid_goingback": draw(st.booleans())}
+    if cfg["family"] == "distance":
+        cfg["only_edges"] = False
+    return {"graph": graph, "trace": trace, "config": cfg, "gen": "detour", "ops": [["match", len(trace)]],
+            "handler": draw(st.sampled_from(["null", "stream"])), "unique": draw(st.booleans())}
+
+
 def strategy(tier):
     @st.composite
     def _s(draw):
+        if draw(st.integers(0, 7)) == 0:
+            return draw(_detour())
         case = draw(common.mixed_case(tier, ne_share=2,
                                       trace_kw={"kinds": ["walk", "sparse", "outlier", "outlier", "exact", "random"]}))
         cfg = case["config"]
